@@ -22,7 +22,7 @@ import (
 var ZZStores = map[*Repository]*zzmem.Store{}
 
 func ZZNewModelRepo(s *zzmem.Store) *Repository {
-	r := &Repository{gitDirPath: "", objectFormat: ObjectFormatSHA1}
+	r := &Repository{gitDirPath: "", objectFormat: ObjectFormatSHA1, clock: testClock}
 	ZZStores[r] = s
 	return r
 }
@@ -144,11 +144,17 @@ func ZZExecuteRawRepo(e *executor) (string, error) {
 		term, name = "\x00", func(n string) string { return n }
 	}
 	switch args[0] {
+	case "rev-parse", "update-ref", "commit-tree", "show", "hash-object":
+		return zzRefCommand(e, s)
 	case "cat-file":
 		id, err := NewHash(last)
 		if err != nil {
 			return fail("fatal: not a valid object name")
 		}
+		if s.Call("git cat-file") {
+			return fail("fatal: injected storage failure")
+		}
+		defer s.After()
 		switch args[1] {
 		case "-e":
 			if s.HasObject(id) {
@@ -252,6 +258,162 @@ func ZZExecuteRawRepo(e *executor) (string, error) {
 			entries = append(entries, gitstore.TreeEntry{Path: p, ID: id, Kind: kind})
 		}
 		return s.RawTree(entries).String() + "\n", nil
+	}
+	return fail("repomodel: command not modelled")
+}
+
+// zzRefCommand models the commands behind GetReference, SetReference,
+// DeleteReference, CheckAndSetReference and Commit, following git's
+// documented behaviour (git-update-ref(1): with <oldvalue> the update happens
+// only if the reference currently has that value, the zero id meaning "must
+// not exist"; a new value must name an existing object; deleting a missing
+// reference succeeds).  Each command is one atomic storage call.
+func zzRefCommand(e *executor, s *zzmem.Store) (string, error) {
+	args := e.args
+	fail := func(msg string) (string, error) {
+		return "", fmt.Errorf("%w when executing `git %s`: %s", errors.New("exit status 128"), strings.Join(args, " "), msg)
+	}
+	label := "git " + args[0]
+	if args[0] == "rev-parse" && len(args) == 2 {
+		if _, err := NewHash(strings.TrimSuffix(strings.TrimSuffix(args[1], "^{tree}"), "^@")); err == nil {
+			label = "git rev-parse (object)" // reads an immutable object only
+		}
+	}
+	if s.Call(label) {
+		return fail("fatal: injected storage failure")
+	}
+	defer s.After()
+	switch args[0] {
+	case "rev-parse":
+		if len(args) != 2 {
+			return fail("repomodel: rev-parse form not modelled")
+		}
+		if base, ok := strings.CutSuffix(args[1], "^{tree}"); ok {
+			id, err := NewHash(base)
+			if err != nil || s.CommitInfo(id) == nil {
+				return fail("fatal: ambiguous argument '" + args[1] + "': unknown revision or path not in the working tree.")
+			}
+			return s.CommitInfo(id).Tree.String() + "\n", nil
+		}
+		if base, ok := strings.CutSuffix(args[1], "^@"); ok {
+			id, err := NewHash(base)
+			if err != nil || s.CommitInfo(id) == nil {
+				return fail("fatal: ambiguous argument '" + args[1] + "': unknown revision or path not in the working tree.")
+			}
+			out := ""
+			for _, p := range s.CommitInfo(id).Parents {
+				out += p.String() + "\n"
+			}
+			return out, nil
+		}
+		if id := s.Ref(args[1]); id != nil {
+			return id.String() + "\n", nil
+		}
+		if id, err := NewHash(args[1]); err == nil && s.HasObject(id) {
+			return id.String() + "\n", nil
+		}
+		return fail("fatal: ambiguous argument '" + args[1] + "': unknown revision or path not in the working tree.")
+	case "update-ref":
+		rest := args[1:]
+		del := false
+		var pos []string
+		for _, a := range rest {
+			switch a {
+			case "--create-reflog":
+			case "-d":
+				del = true
+			default:
+				pos = append(pos, a)
+			}
+		}
+		if del {
+			if len(pos) != 1 {
+				return fail("repomodel: update-ref -d form not modelled")
+			}
+			s.DropRef(pos[0])
+			return "", nil
+		}
+		if len(pos) != 2 && len(pos) != 3 {
+			return fail("usage: git update-ref")
+		}
+		ref := pos[0]
+		newID, err := NewHash(pos[1])
+		if err != nil {
+			return fail("fatal: " + pos[1] + ": not a valid SHA1")
+		}
+		cur := s.Ref(ref)
+		if len(pos) == 3 {
+			oldID, err := NewHash(pos[2])
+			if err != nil {
+				return fail("fatal: " + pos[2] + ": not a valid SHA1")
+			}
+			if oldID.IsZero() {
+				if cur != nil {
+					return fail("fatal: update_ref failed for ref '" + ref + "': cannot lock ref '" + ref + "': reference already exists")
+				}
+			} else if cur == nil {
+				return fail("fatal: update_ref failed for ref '" + ref + "': cannot lock ref '" + ref + "': unable to resolve reference '" + ref + "'")
+			} else if !cur.Equal(oldID) {
+				return fail("fatal: update_ref failed for ref '" + ref + "': cannot lock ref '" + ref + "': is at " + cur.String() + " but expected " + oldID.String())
+			}
+		}
+		if !s.HasObject(newID) {
+			return fail("fatal: update_ref failed for ref '" + ref + "': trying to write ref with nonexistent object " + newID.String())
+		}
+		s.SetRef(ref, newID)
+		return "", nil
+	case "show":
+		// show -s --format=%B <commit>
+		if len(args) != 4 || args[1] != "-s" || args[2] != "--format=%B" {
+			return fail("repomodel: show form not modelled")
+		}
+		id, err := NewHash(args[3])
+		if err != nil || s.CommitInfo(id) == nil {
+			return fail("fatal: bad object " + args[3])
+		}
+		return s.CommitInfo(id).Message + "\n", nil
+	case "hash-object":
+		// hash-object -t tree --stdin with empty input: the empty tree
+		if len(args) != 4 || args[1] != "-t" || args[2] != "tree" || args[3] != "--stdin" || e.stdIn != nil {
+			return fail("repomodel: hash-object form not modelled")
+		}
+		return s.RawEmptyTree().String() + "\n", nil
+	case "commit-tree":
+		var parents []Hash
+		message := ""
+		sign := false
+		var tree Hash
+		for i := 1; i < len(args); i++ {
+			switch args[i] {
+			case "-m":
+				i++
+				message = args[i]
+			case "-p":
+				i++
+				p, err := NewHash(args[i])
+				if err != nil || s.CommitInfo(p) == nil {
+					return fail("fatal: " + args[i] + " is not a valid object")
+				}
+				parents = append(parents, p)
+			case "-S":
+				sign = true
+			default:
+				t, err := NewHash(args[i])
+				if err != nil || s.ObjectType(t) != "tree" {
+					return fail("fatal: " + args[i] + " is not a valid 'tree' object")
+				}
+				tree = t
+			}
+		}
+		if tree == nil {
+			return fail("fatal: must give exactly one tree")
+		}
+		signer := zzmem.Unsigned
+		if sign {
+			signer = s.Signer
+		}
+		// (git stores message+"\n"; every reader here trims it again)
+		return s.RawCommit("", tree, parents, message, signer).String() + "\n", nil
 	}
 	return fail("repomodel: command not modelled")
 }
